@@ -127,7 +127,7 @@ pub fn run(ctx: &mut Ctx) {
     ctx.mark_exhaustive(sub, "2^19 states x types {1,2,3,4,11} + 2^20 (selector, state) x types {9,18} = 4,718,592 decodes");
     ctx.samples.push(json!({"sub": sub, "what": "typed exhaustive sweep", "states_decoded": total}));
 
-    let n = ctx.tier.pick(20_000, 600_000);
+    let n = ctx.tier.pick(120_000, 600_000);
     ctx.run_proptest("random-assignments", &STD, n, payload_inputs(RADIO_TYPES.to_vec(), LenMode::Standard, Prop::C16, 8, 0.1), check);
     for cfg in configs().into_iter().skip(1) {
         ctx.run_proptest("random-assignments", cfg, n / 2, payload_inputs(RADIO_TYPES.to_vec(), LenMode::Standard, Prop::C16, 8, 0.1), check);
